@@ -40,7 +40,7 @@ RULE = (
 ASSUMPTIONS = [
   "MuJoCo C 3.13 is the reference; solver tolerance 1e-8 / 100 iterations on both sides; nworld=1 (flags are global options)",
   "stage tolerances as in C02/C03/C05/C08: forces 5e-4*scale, qacc_smooth scaled by cond(M) (skipped if >1e6), rows J and vel 1.5e-3 (contacts matched within 3e-4 in position/frame), D 2e-3 relative, "
-  "aref within 8e-3 of the size of its terms B*|vel| + K*I*|pos| plus the effect of the row's own vel/pos difference, qacc 2e-2*accscale with active rows, qfrc_inverse 5e-4 without rows / 2e-3 of "
+  "aref within 8e-3 of the size of its terms B*|vel| + K*I*|pos| plus the effect of the row's own vel/pos difference, qacc 3e-2*accscale with active rows, qfrc_inverse 5e-4 without rows / 2e-3 of "
   "max(force scale, max D*(|J.qacc| + B|vel| + K*I|pos|)) with rows, "
   "next qvel/qpos = acceleration tolerance x dt (x dt^2) + float32 representation terms, sensors 1e-4 (pos/vel) / 2e-3 (acc stage) relative to the stage scale, energy 1e-4",
   "constraint rows, solver outputs, acceleration-stage sensors, qfrc_inverse and the next state are judged only when both engines report the same contacts (C04's business otherwise), "
@@ -755,10 +755,16 @@ def _differential(rec, mjm, S, case, W, Mj, state):
       _close(rec, "efc.vel", ew["vel"][iw], em["vel"][im], 1.5e-3, max(1.0, q1, float(np.max(np.abs(em["vel"])))), "rows:vel", **ctx)
       _close(rec, "efc.frictionloss", ew["frictionloss"][iw], em["frictionloss"][im], 1e-5, None, "rows:frictionloss", **ctx)
       Dw, Dm = ew["D"][iw].astype(np.float64), em["D"][im]
-      rel = float(np.max(np.abs(Dw - Dm) / np.maximum(np.abs(Dm), 1e-6)))
-      rec.err("efc.D(rel)", rel)
+      # D = I / ((1 - I) diagApprox) with impedance I(pos): a position difference inside the contact-matching tolerance moves I by I' * dpos, i.e. D by
+      # dpos * I' / (I (1 - I)) relative - large on a narrow impedance ramp (solimp width 1e-4: thorough tier saw 3.6 %).  MuJoCo's own I and I' (efc_KBIP)
+      Iimp, dI = em["KBIP"][im, 2], np.abs(em["KBIP"][im, 3])
+      dpos = np.abs(pw[iw] - pm[im]) + 2e-7
+      allow = 2e-3 + 2.0 * dpos * dI / np.maximum(Iimp * (1.0 - Iimp), 1e-9)
+      relv = np.abs(Dw - Dm) / np.maximum(np.abs(Dm), 1e-6)
+      rel = float(np.max(relv / allow) * 2e-3)
+      rec.err("efc.D(rel, scaled to the 2e-3 tolerance)", rel)
       if rel > 2e-3:
-        j = int(np.argmax(np.abs(Dw - Dm) / np.maximum(np.abs(Dm), 1e-6)))
+        j = int(np.argmax(relv / allow))
         rec.violation(f"efc.D differs: row key {rw[j][0]} got {Dw[j]} want {Dm[j]} flags={sorted(S)}", sig="rows:D", **ctx)
       # aref = -B*vel - K*I*(pos - margin): judged as the stiffness/damping/impedance computation (what REFSAFE acts on), i.e. relative to the size of its two terms and
       # allowing for the row's own (separately judged) vel and pos differences
@@ -787,7 +793,7 @@ def _differential(rec, mjm, S, case, W, Mj, state):
   # ---- D: solver outputs
   converged = Mj["niter"] < _ITER and W["solver_niter"] < _ITER
   accscale = max(1.0, float(np.max(np.abs(Mj["qacc"]))))
-  rtol_acc = tol_acc if em["nefc"] == 0 else max(tol_acc, 2e-2)
+  rtol_acc = tol_acc if em["nefc"] == 0 else max(tol_acc, 3e-2)
   solved = comparable and converged and condM <= 1e6
   qacc_tight = False
   if solved:
@@ -917,7 +923,7 @@ def _step_tol(mjm, S, case, Mj, state):
   acc2 = max(1.0, float(np.max(np.abs(Mj["qacc"]))), float(np.max(np.abs(v1 - v0), initial=0.0)) / dt)
   r_acc = 2e-5 * min(max(cond, 10.0), 1e6) / 10.0 + 1e-4
   if Mj["nefc"]:
-    r_acc = max(r_acc, 2e-2)
+    r_acc = max(r_acc, 3e-2)
   return acc2, r_acc, max(1.0, float(np.max(np.abs(v1), initial=0.0)))
 
 
